@@ -7,6 +7,10 @@
   tags (`>` only, end tag ⇔ not void), unprefixed HTML / MathML / SVG names, text and attribute
   escaping, refusal of processing instructions containing `>`, and (full strength since /repo
   f19bbd2) MathML / SVG / XHTML elements under a default-namespace declaration (`C19_embedded`).
+  Part 3 (`C19_normalizer_*`, Model/Normalizer.lean): the `*_with_normalizer` entry points, for EVERY normalizer —
+  same outcome as without one, never a panic, what is written is the escaping of the NORMALISED string (markup
+  characters the normalizer produces are escaped), and — under exactly stated side conditions — the output is the
+  output for the normalised tree without a normalizer.
   Defect kept visible: `C19_xhtml_const_defect` (so "XHTML_NS" below is the namespace the crate's
   constant names, the `https` spelling: the partial form of the property).
 -/
@@ -20,6 +24,7 @@ import XotModel.Lemmas.Html5Top
 import XotModel.Lemmas.Html5Decode
 import XotModel.Lemmas.Html5Pretty
 import XotModel.Lemmas.Html5PrettyWhere
+import XotModel.Lemmas.NormalizerFullwidth
 
 namespace XotModel.Props
 open XotModel XotModel.Gen
@@ -625,5 +630,141 @@ example :
 /-- `C19_unprefixed` / `C19_ids_ne_xml`: the hypotheses hold in the witness vocabulary. -/
 example : (htmlCtx witnessEnv {}).h.mustBeUnprefixed ((htmlCtx witnessEnv {}).env.nsOfName 3) = true ∧
     (htmlCtx witnessEnv {}).h.isHtmlNamespace ((htmlCtx witnessEnv {}).env.nsOfName 2) = true := by decide
+
+/-! ### C19_normalizer: `serialize_string_with_normalizer` / `serialize_write_with_normalizer`
+
+`serializeHtmlStringN N` (Model/Normalizer.lean) is the serialiser with the caller's normalizer `N` passed to
+every escaping call, as `Html5Serializer<N>` does: character data, attribute values, the namespace URI of a
+written or injected `xmlns` declaration.  Everything above is the `N = id` (`NoopNormalizer`) instance. -/
+
+/-- `NoopNormalizer` is the `id` instance. -/
+theorem C19_normalizer_noop (env : Env) (p : HtmlParams) (t : Tree) (start : Path) :
+    serializeHtmlStringN id env p t start = serializeHtmlString env p t start ∧
+    serializeHtmlWriteN id env p t start = serializeHtmlWrite env p t start :=
+  ⟨serializeHtmlStringN_id env p t start, serializeHtmlWriteN_id env p t start⟩
+
+/-- Under EVERY normalizer the call ends as it ends without one — success or the same error — hence never
+    panics, and what is written starts with the doctype. -/
+theorem C19_normalizer_outcome (N : Str → Str) (env : Env) (p : HtmlParams) (t : Tree) (start : Path) :
+    (serializeHtmlWriteN N env p t start).2 = (serializeHtmlWrite env p t start).2 ∧
+    serializeHtmlStringN N env p t start ≠ .panic ∧
+    ∃ body, (serializeHtmlWriteN N env p t start).1 = htmlDoctype ++ body := by
+  have ho := serializeHtmlWriteN_outcome N env p t start
+  refine ⟨ho, ?_, ⟨_, rfl⟩⟩
+  have hnp := C19_nopanic_write env p t start
+  unfold serializeHtmlStringN bufferToString
+  rw [ho]
+  cases hr : (serializeHtmlWrite env p t start).2 with
+  | ok u => simp
+  | err e => simp
+  | panic => exact absurd hr hnp
+
+/-- Text under EVERY normalizer: the token is the function the parent selects applied to the NORMALISED text. -/
+theorem C19_normalizer_text (N : Str → Str) (c : HtmlCtx) (s s' : HState) (node : Tree) (parent : Option Tree)
+    (text : Str) (tok : OutputToken) (h : renderHtmlN N c s node parent (.text text) = .ok (s', tok)) :
+    tok.space = false ∧ tok.text = htmlTextValue c parent (N text) := by
+  simp only [renderHtmlN, Outcome.ok.injEq, Prod.mk.injEq] at h
+  obtain ⟨_, rfl⟩ := h
+  exact ⟨rfl, htmlTextValueN_eq N c parent text⟩
+
+/-- **C19_normalizer_text_escaped**: `C19_text_escaped` holds of the output under ANY normalizer — unless the
+    parent is a raw-text or requested CDATA-section element, the token holds no `<` and every `&` in it starts a
+    character reference, whatever characters the normalizer produces (normalise first, THEN escape). -/
+theorem C19_normalizer_text_escaped (N : Str → Str) (c : HtmlCtx) (parent : Option Tree) (text : Str)
+    (hp : ∀ pn, parentElementName parent = some pn →
+      c.h.noEscape.matches c.env pn = false ∧ c.cdata.contains pn = false) :
+    '<' ∉ htmlTextValueN N c parent text ∧ refsOnly knownRefs (htmlTextValueN N c parent text) = true := by
+  rw [htmlTextValueN_eq]
+  exact C19_text_escaped c parent (N text) hp
+
+/-- Decoding the escaped token gives back the NORMALISED text. -/
+theorem C19_normalizer_text_roundtrip (N : Str → Str) (c : HtmlCtx) (parent : Option Tree) (text : Str)
+    (hp : ∀ pn, parentElementName parent = some pn →
+      c.h.noEscape.matches c.env pn = false ∧ c.cdata.contains pn = false) :
+    htmlDecode (htmlTextValueN N c parent text) = some (N text) := by
+  rw [htmlTextValueN_eq]
+  exact C19_text_roundtrip c parent (N text) hp
+
+/-- **C19_normalizer_attr_escaped**: `C19_attr` under ANY normalizer — the bare name (decided on the value as
+    stored) or `name="v"` where `v` is the escaping of the NORMALISED value: no `"`, every `&` a reference. -/
+theorem C19_normalizer_attr_escaped (N : Str → Str) (c : HtmlCtx) (s s' : HState) (node : Tree)
+    (parent : Option Tree) (name : Nat) (value : Str) (tok : OutputToken)
+    (h : renderHtmlN N c s node parent (.attribute name value) = .ok (s', tok)) :
+    ∃ full, s.stack.attributeFullname c.env name = .ok full ∧ tok.space = true ∧
+      ((tok.text = full ∧ asciiLower (c.env.localName name) = asciiLower value) ∨
+       (tok.text = full ++ ['=','"'] ++ htmlAttrValue c name (N value) ++ ['"'] ∧
+        '"' ∉ htmlAttrValue c name (N value) ∧ refsOnly knownRefs (htmlAttrValue c name (N value)) = true)) :=
+  c19n_attr N c s s' node parent name value tok h
+
+/-- `C19_attr_xmlns` under ANY normalizer: the URI is normalised, then escaped like an attribute value. -/
+theorem C19_normalizer_attr_xmlns (N : Str → Str) (c : HtmlCtx) (s s' : HState) (node : Tree)
+    (parent : Option Tree) (p ns : Nat) (tok : OutputToken)
+    (h : renderHtmlN N c s node parent (.pfx p ns) = .ok (s', tok)) :
+    tok.text = [] ∨
+    ∃ v, (tok.text = ['x','m','l','n','s','=','"'] ++ v ++ ['"'] ∨
+          tok.text = ['x','m','l','n','s',':'] ++ c.env.prefixStr p ++ ['=','"'] ++ v ++ ['"']) ∧
+      v = serializeAttributeHtml (N (c.env.namespaceStr ns)) ∧ '"' ∉ v ∧ refsOnly knownRefs v = true :=
+  c19n_attr_xmlns N c s s' node parent p ns tok h
+
+/-- **C19_normalizer_is_premap**: serialising WITH the normalizer gives — same string or same error, same
+    bytes written — what serialising the normalised tree gives without one, for every parameter set.
+    Hypotheses, the weakest that work (`C19_normalizer_bool_necessary`; `hns` / `hsp` as for XML):
+    `hns` — `N` fixes the namespace URIs of the serialiser's table (the caller's and the XHTML / MathML / SVG
+    URIs `xot.html5()` registers): they are written through `serialize_attribute_html(.., normalizer)`;
+    `hb` — `N` does not change the outcome of the boolean-attribute test, which compares the attribute's local
+    name with the value AS STORED (`value.to_ascii_lowercase()`), for attributes in an HTML namespace;
+    `hsp` — only with indentation: `N` leaves `element_space` (the `xml:space` attribute as stored) alone. -/
+theorem C19_normalizer_is_premap (N : Str → Str) (env : Env) (p : HtmlParams) (t : Tree) (start : Path)
+    (hns : ∀ ns, N ((htmlCtx env p).env.namespaceStr ns) = (htmlCtx env p).env.namespaceStr ns)
+    (hb : BoolKept N (htmlCtx env p) (genOutputs t start))
+    (hsp : p.indentation ≠ none → SpaceKept N t (genOutputs t start)) :
+    serializeHtmlStringN N env p t start = serializeHtmlString env p (t.mapText N) start ∧
+    serializeHtmlWriteN N env p t start = serializeHtmlWrite env p (t.mapText N) start :=
+  ⟨serializeHtmlStringN_norm N env p t start hns hb hsp, serializeHtmlWriteN_norm N env p t start hns hb hsp⟩
+
+/-- `hns` holds as soon as `N` fixes `""`, the strings of the caller's namespace table and the three URIs. -/
+theorem C19_normalizer_hypotheses (N : Str → Str) (env : Env) (p : HtmlParams)
+    (h0 : N [] = []) (h : ∀ u ∈ env.namespaces, N u = u)
+    (hx : N xhtmlNs = xhtmlNs) (hm : N mathmlNs = mathmlNs) (hs : N svgNs = svgNs) :
+    ∀ ns, N ((htmlCtx env p).env.namespaceStr ns) = (htmlCtx env p).env.namespaceStr ns :=
+  fixes_htmlCtx_namespaceStr N env p h0 h hx hm hs
+
+/-- `fullwidthNorm` on a namespace table without the five fullwidth forms: only the boolean-attribute
+    condition remains. -/
+theorem C19_normalizer_fullwidth (env : Env) (hc : nsClean env = true) (p : HtmlParams) (t : Tree) (start : Path)
+    (hb : BoolKept fullwidthNorm (htmlCtx env p) (genOutputs t start)) :
+    serializeHtmlStringN fullwidthNorm env p t start = serializeHtmlString env p (t.mapText fullwidthNorm) start :=
+  (C19_normalizer_is_premap fullwidthNorm env p t start (fullwidthNorm_fixes_html_ns env p hc) hb
+    (fun _ => spaceKept_of_stable _ fullwidthNorm_spaceStable t _)).1
+
+/-- Non-vacuity, closed (`witnessEnv`): `<div div="＂a＆">＜x＆y＞<svg/></div>` under `fullwidthNorm`; `>` is not
+    escaped in HTML text, the SVG URI is written through the normalizer. -/
+def c19NormDoc : Tree :=
+  .node (.element 2) [.node (.attribute 2 ['\uff02', 'a', '\uff06']) [],
+    .node (.text ['\uff1c', 'x', '\uff06', 'y', '\uff1e']) [], .node (.element 3) []]
+def c19NormText : Str :=
+  "<!DOCTYPE html><div div=\"&quot;a&amp;\">&lt;x&amp;y><svg xmlns=\"http://www.w3.org/2000/svg\"></svg></div>".toList
+
+example : serializeHtmlStringN fullwidthNorm witnessEnv {} c19NormDoc [] = .ok c19NormText := by decide
+example : serializeHtmlString witnessEnv {} (c19NormDoc.mapText fullwidthNorm) [] = .ok c19NormText := by decide
+example : nsClean witnessEnv = true ∧ BoolKept fullwidthNorm (htmlCtx witnessEnv {}) (genOutputs c19NormDoc []) := by
+  decide
+example : serializeHtmlStringN fullwidthNorm witnessEnv {} c19NormDoc [] =
+    serializeHtmlString witnessEnv {} (c19NormDoc.mapText fullwidthNorm) [] :=
+  C19_normalizer_fullwidth witnessEnv (by decide) {} c19NormDoc [] (by decide)
+
+/-- `hb` is necessary: an attribute whose local name `a＜` (U+FF1C is an XML name character) equals its value is
+    written as a boolean attribute under the normalizer; in the normalised tree the value is `a<`, no longer the
+    name, and is written out. -/
+def c19BoolEnv : Env :=
+  ⟨[[], xmlNs], [[], ['x','m','l']],
+   [(['s','p','a','c','e'], 1), (['i','d'], 1), (['d','i','v'], 0), (['a', '\uff1c'], 0)]⟩
+theorem C19_normalizer_bool_necessary :
+    let t : Tree := .node (.element 2) [.node (.attribute 3 ['a', '\uff1c']) []]
+    serializeHtmlStringN fullwidthNorm c19BoolEnv {} t [] =
+      .ok ("<!DOCTYPE html><div a".toList ++ ['\uff1c'] ++ "></div>".toList) ∧
+    serializeHtmlString c19BoolEnv {} (t.mapText fullwidthNorm) [] =
+      .ok ("<!DOCTYPE html><div a".toList ++ ['\uff1c'] ++ "=\"a<\"></div>".toList) ∧
+    ¬ BoolKept fullwidthNorm (htmlCtx c19BoolEnv {}) (genOutputs t []) := by decide
 
 end XotModel.Props
